@@ -297,12 +297,18 @@ func runC06(r *Rng, n int, replay string) {
 		fw := &World{FS: w.flat}
 		var opsC, items []string
 		ops := genNS(r, false)
+		if len(w.points) > 0 {
+			// a regular file renamed onto a name that IS a mount point: routed to the mounted file system's root (and refused
+			// there), never to the directory the mount point covers
+			pt := w.points[r.Intn(len(w.points))]
+			ops = append(ops, Op{Kind: "writefile", P: "zq", Data: []byte{5, 6}, Perm: 0o644}, Op{Kind: "rename", P: "zq", Q: pt})
+		}
 		for i, o := range ops {
 			// operations that remove or rename a mount point or a directory containing one are C03's finding; not generated here
 			if (o.Kind == "remove" || o.Kind == "removeall") && w.coversPoint(o.P) {
 				continue
 			}
-			if o.Kind == "rename" && (w.coversPoint(o.P) || w.coversPoint(o.Q)) {
+			if o.Kind == "rename" && (w.coversPoint(o.P) || (w.coversPoint(o.Q) && !w.isPoint(o.Q))) {
 				continue
 			}
 			before := make([][]SnapEntry, len(w.parts))
